@@ -56,7 +56,7 @@ Section Spec.
     else
       (* no priority: share of each source in the production of the step (14) *)
       f_match cr t * qmin (E_EPus cr t) (E_pr cr t)
-      * (if qltb (qfrac 1 1000) (E_pr cr t) then E_pr_j cr j t / E_pr cr t else 0).
+      * (if qltb 0 (E_pr cr t) then E_pr_j cr j t / E_pr cr t else 0).
 
   Definition E_pr_used cr t : Qc :=
     if with_priority cr then E_pr_used_j cr EL_INSITU t + E_pr_used_j cr EL_COGEN t
